@@ -284,19 +284,35 @@ fn one_case(rng: &mut Rng) -> (String, bool, String) {
     let race = if rng.chance(1, 4) { Some(rng.below(2) as u8) } else { None };
     let (side1, st1) = random_side(rng, &mut names, &base, &base_commits, &a1, race);
     let (side2, st2) = random_side(rng, &mut names, &base, &base_commits, &a2, race);
-    let first_is_1 = rng.chance(1, 2);
-    let (self_repo, other_repo) = if first_is_1 { (&side1, &side2) } else { (&side2, &side1) };
-    let ops = vec![self_repo.operation().clone(), other_repo.operation().clone()];
+    // a third concurrent transaction in 1/4 of the cases
+    let third = if rng.chance(1, 4) {
+        let a3: Vec<usize> = if overlapping { (0..n0).collect() } else { vec![] };
+        Some(random_side(rng, &mut names, &base, &base_commits, &a3, race))
+    } else {
+        None
+    };
+    let mut sides: Vec<&Arc<ReadonlyRepo>> = vec![&side1, &side2];
+    if let Some((s3, _)) = &third {
+        sides.push(s3);
+    }
+    rng.shuffle(&mut sides);
+    let first_is_1 = Arc::ptr_eq(sides[0], &side1);
+    let ops: Vec<_> = sides.iter().map(|r| r.operation().clone()).collect();
     let merged = jjv::catch(|| loader.merge_operations(ops, None, Some("reconcile"), []).block_on().unwrap().0);
+    let fail_term = "(C13.mk_case (C13.mk_view [] [] []) (C13.mk_view [] [] []) (C13.mk_view [] [] []) None (C13.mk_view [] [] []) true)";
     let Some(merged) = merged else {
-        return ("(C13.mk_case (C13.mk_view [] [] []) (C13.mk_view [] [] []) (C13.mk_view [] [] []) (C13.mk_view [] [] []) true)".into(), false, "merge panic".into());
+        return (fail_term.into(), false, "merge panic".into());
     };
     let term = coq::app(
         "C13.mk_case",
         &[
-            view_term(self_repo, &names),
+            view_term(sides[0], &names),
             view_term(&base, &names),
-            view_term(other_repo, &names),
+            view_term(sides[1], &names),
+            match sides.get(2) {
+                Some(r) => format!("(Some {})", view_term(r, &names)),
+                None => "None".into(),
+            },
             view_term(&merged, &names),
             "false".into(),
         ],
@@ -305,7 +321,8 @@ fn one_case(rng: &mut Rng) -> (String, bool, String) {
     let rew = st1.rewrites + st1.abandons + st2.rewrites + st2.abandons;
     let nontrivial = total(&st1) > 0 && total(&st2) > 0;
     let shape = format!(
-        "{}{} rewrites={} refs={}",
+        "{}{}{} rewrites={} refs={}",
+        if third.is_some() { "3-way " } else { "" },
         if overlapping { "overlap" } else { "disjoint" },
         match race {
             Some(0) => " bookmark-race",
@@ -338,7 +355,7 @@ fn main() {
                 Some(x) => x,
                 None => {
                     ctx.panicked();
-                    ("(C13.mk_case (C13.mk_view [] [] []) (C13.mk_view [] [] []) (C13.mk_view [] [] []) (C13.mk_view [] [] []) true)".into(), false, "harness panic".into())
+                    ("(C13.mk_case (C13.mk_view [] [] []) (C13.mk_view [] [] []) (C13.mk_view [] [] []) None (C13.mk_view [] [] []) true)".into(), false, "harness panic".into())
                 }
             };
             ctx.emit(i, term, nontrivial, &shape);
